@@ -651,10 +651,14 @@ def share_scpd(rng, d):
 def mk_case(rng, d, strict, render, base=None):
     if rng.random() < 0.3:
         share_scpd(rng, d)
+    twin = rng.choice([None, None, None, None, "before", "concurrent", "concurrent2"])
     vars_ = [v for s in all_services(d) for v in s["vars"]]
     rng.shuffle(vars_)
-    return {"kind": "def", "strict": strict, "base": base or rng.choice(BASES), "probes": probes_for(rng, vars_),
+    case = {"kind": "def", "strict": strict, "base": base or rng.choice(BASES), "probes": probes_for(rng, vars_),
             "def": d, "render": render}
+    if twin:
+        case["twin"] = twin
+    return case
 
 
 # ---- raw (malformed) documents: tree-level mutations of a rendered definition
@@ -848,7 +852,8 @@ class Plugin:
         "reading: a degraded service (non-strict) keeps identity and URLs, has no state variables and nothing bound to one; for a "
         "foreign root element in non-strict mode the statement asks nothing about the body",
         "well-formed: state-variable and action names unique per service, arguments name existing variables, default / bounds / "
-        "allowed values are non-empty spellings of values of the type, each service has its own SCPD URL",
+        "allowed values are non-empty spellings of values of the type; one document per SCPD URL: services whose SCPD URLs "
+        "resolve to one URL have the same state variables, actions and corruption (Spec.wf_desc), no SCPD URL is the description URL",
         "allowed lists / ranges on aware date-times are outside C08's modelled ordering and are not generated",
         "texts contain no CR and no characters XML 1.0 cannot carry",
     ]
@@ -925,17 +930,49 @@ class Plugin:
                 got = parse_text(scpds[urljoin(base, s["scpd"])][1])
                 assert trees_equal(got, r.scpd_tree(s)), "renderer/parser disagree (scpd)"
 
+        # a second description handled by the same factory - before, or interleaved with, the one under test: the
+        # definition itself with every service document healthy, served from another host.  What the factory
+        # builds for the case must not depend on it.
+        twin = case.get("twin") if case["kind"] == "def" else None
+        tbase, tdesc, tscpds = None, None, {}
+        if twin:
+            tcase = copy.deepcopy(case)
+            for sv in all_services(tcase["def"]):
+                sv["corrupt"] = "none"
+            tbase = tcase["base"] = "http://twin.example:8088/t/desc.xml"
+            tdesc, tscpds = build_world(tcase)
+        docs = dict(tscpds)
+        docs.update(scpds)
+
         class Requester(UpnpRequester):
             async def async_http_request(self, method, url, headers=None, body=None):  # noqa: ARG002
                 assert method == "GET"
+                if twin in ("concurrent", "concurrent2"):
+                    await asyncio.sleep(0)
                 if url == base:
                     return desc[0], {}, desc[1]
-                st, bd = scpds.get(url, (404, ""))
+                if url == tbase:
+                    return tdesc[0], {}, tdesc[1]
+                st, bd = docs.get(url, (404, ""))
                 return st, {}, bd
 
         factory = UpnpFactory(Requester(), non_strict=not case["strict"])
+
+        async def both():
+            # either one may be started first; each runs whenever the other waits for a document
+            order = [tbase, base] if twin == "concurrent" else [base, tbase]
+            res = await asyncio.gather(*(factory.async_create_device(u) for u in order), return_exceptions=True)
+            mine = res[order.index(base)]
+            if isinstance(mine, BaseException):
+                raise mine
+            return mine
         try:
-            dev = self._run(factory.async_create_device(base))
+            if twin == "before":
+                try:
+                    self._run(factory.async_create_device(tbase))
+                except Exception:  # noqa: BLE001
+                    pass
+            dev = self._run(both() if twin in ("concurrent", "concurrent2") else factory.async_create_device(base))
         except Exception as e:  # noqa: BLE001 - exceptions are observations
             return exn_obs(e)
         return {"ok": dump_device(dev, None, case["probes"])}
@@ -1061,6 +1098,8 @@ class Plugin:
             for i in range(len(case["scpds"])):
                 yield {**case, "scpds": case["scpds"][:i] + case["scpds"][i + 1:]}
             return
+        if case.get("twin"):
+            yield {k: v for k, v in case.items() if k != "twin"}
 
         def variants(d):
             for i in range(len(d["subs"])):
